@@ -500,8 +500,13 @@ func (c *Context) onRestart(message *RestartMessage, behavior vivid.Behavior) {
 	// 	return
 	// }
 
+	// 上述“不可达”的结论并不成立：在子 Actor 失败与父 Actor 作出 Restart 决策之间，该 Actor 可能已被显式 Kill
+	// （state 为 killing）或已成为僵尸；此时继续重启会使 OnKill 被重复投递，并让已被 Kill 的 Actor 复活。
+	if !atomic.CompareAndSwapInt32(&c.state, running, killing) {
+		return
+	}
+
 	// 标记正在重启
-	atomic.StoreInt32(&c.state, killing) // 取代上方 CAS 注释
 	c.restarting = message
 	c.Logger().Debug("receive restart", log.String("path", c.ref.GetPath()), log.String("reason", message.Reason), log.Any("fault", message.Fault), log.String("stack", string(message.Stack)))
 
